@@ -119,46 +119,50 @@ func hasTraversalFeature(kinds map[string]bool) bool {
 func TestC10_RoundTrip(t *testing.T) {
 	hx.Run(t, "C10", "RoundTrip", 12000,
 		"error-free configuration (body tree with full G-EXPR values, every traversal shape, comments) loaded with hclwrite.ParseConfig; oracle: no diagnostics/panic, Bytes() has the source's (type,bytes) token sequence and equals Format(source), tree exposes attributes/blocks/labels/variables of the source; non-trivial = an index/legacy-index/splat traversal and a comment; distinct by source text",
-		func(c *hx.Case) {
-			t := c.T
-			sc := gen.DrawScope(t, gen.ScopeOpts{Nulls: 12})
-			tree := drawConfig(t, sc, 2, gen.ExprOpts{IllTyped: 10, HostileLits: true, Budget: 14, MaxDepth: 3})
-			bo := drawBodyOpts(t)
-			src, r := render.File(tree, rchooser{t}, bo)
-			c.Set("source", src)
-			kinds := map[string]bool{}
-			exprFeatures(tree, kinds)
-			featClasses(c, "node_", kinds)
-			featClasses(c, "layout_", r.Feat)
-			syn, diags := hclsyntax.ParseConfig([]byte(src), "t.hcl", hcl.InitialPos)
-			if diags.HasErrors() {
-				c.Failf("generator-parse-error", "generated configuration does not parse: %s", diagStr(diags))
-			}
-			var f *hclwrite.File
-			c.Guard("hclwrite.ParseConfig", func() { f, diags = hclwrite.ParseConfig([]byte(src), "t.hcl", hcl.InitialPos) })
-			if diags.HasErrors() || f == nil {
-				c.Failf("writer-parse-error", "hclwrite.ParseConfig reports: %s", diagStr(diags))
-			}
-			var out []byte
-			c.Guard("File.Bytes", func() { out = f.Bytes() })
-			c.Set("bytes", string(out))
-			inToks, _ := lexConfigToks([]byte(src))
-			outToks, _ := lexConfigToks(out)
-			if i := firstTokDiff(inToks, outToks); i >= 0 {
-				c.Failf("token-sequence", "token %d differs: source %s, Bytes() %s", i, tokAt(inToks, i), tokAt(outToks, i))
-			}
-			var formatted []byte
-			c.Guard("Format", func() { formatted = hclwrite.Format([]byte(src)) })
-			if !bytes.Equal(formatted, out) {
-				c.Set("formatted", string(formatted))
-				c.Failf("bytes-vs-format", "File.Bytes() differs from Format(source)")
-			}
-			c.Guard("writer tree accessors", func() {
-				checkWriterTree(c, tree, syn.Body.(*hclsyntax.Body), f.Body(), "")
-			})
-			hasComment := r.Feat["inline_comment"] || r.Feat["line_comment"] || r.Feat["comment_line"] || r.Feat["trailing_comment"] || r.Feat["block_comment_line"] || r.Feat["comment_after_brace"]
-			c.Done(hasTraversalFeature(kinds) && hasComment, src)
-		})
+		caseC10RoundTrip)
 }
+
+func caseC10RoundTrip(c *hx.Case) {
+	t := c.T
+	sc := gen.DrawScope(t, gen.ScopeOpts{Nulls: 12})
+	tree := drawConfig(t, sc, 2, gen.ExprOpts{IllTyped: 10, HostileLits: true, Budget: 14, MaxDepth: 3})
+	bo := drawBodyOpts(t)
+	src, r := render.File(tree, rchooser{t}, bo)
+	c.Set("source", src)
+	kinds := map[string]bool{}
+	exprFeatures(tree, kinds)
+	featClasses(c, "node_", kinds)
+	featClasses(c, "layout_", r.Feat)
+	syn, diags := hclsyntax.ParseConfig([]byte(src), "t.hcl", hcl.InitialPos)
+	if diags.HasErrors() {
+		c.Failf("generator-parse-error", "generated configuration does not parse: %s", diagStr(diags))
+	}
+	var f *hclwrite.File
+	c.Guard("hclwrite.ParseConfig", func() { f, diags = hclwrite.ParseConfig([]byte(src), "t.hcl", hcl.InitialPos) })
+	if diags.HasErrors() || f == nil {
+		c.Failf("writer-parse-error", "hclwrite.ParseConfig reports: %s", diagStr(diags))
+	}
+	var out []byte
+	c.Guard("File.Bytes", func() { out = f.Bytes() })
+	c.Set("bytes", string(out))
+	inToks, _ := lexConfigToks([]byte(src))
+	outToks, _ := lexConfigToks(out)
+	if i := firstTokDiff(inToks, outToks); i >= 0 {
+		c.Failf("token-sequence", "token %d differs: source %s, Bytes() %s", i, tokAt(inToks, i), tokAt(outToks, i))
+	}
+	var formatted []byte
+	c.Guard("Format", func() { formatted = hclwrite.Format([]byte(src)) })
+	if !bytes.Equal(formatted, out) {
+		c.Set("formatted", string(formatted))
+		c.Failf("bytes-vs-format", "File.Bytes() differs from Format(source)")
+	}
+	c.Guard("writer tree accessors", func() {
+		checkWriterTree(c, tree, syn.Body.(*hclsyntax.Body), f.Body(), "")
+	})
+	hasComment := r.Feat["inline_comment"] || r.Feat["line_comment"] || r.Feat["comment_line"] || r.Feat["trailing_comment"] || r.Feat["block_comment_line"] || r.Feat["comment_after_brace"]
+	c.Done(hasTraversalFeature(kinds) && hasComment, src)
+}
+
+func FuzzC10_RoundTrip(f *testing.F) { hx.Fuzz(f, "C10", "RoundTrip", caseC10RoundTrip) }
 
 var _ = gen.IsIdent
